@@ -3,6 +3,8 @@
 package cl
 
 import (
+	"fmt"
+
 	"github.com/ohler55/slip"
 )
 
@@ -94,6 +96,10 @@ func (f *AdjustArray) Call(s *slip.Scope, args slip.List, depth int) (result sli
 	}
 	switch ta := args[1].(type) {
 	case slip.Fixnum:
+		if ta < 0 || slip.ArrayMaxDimension < ta {
+			slip.TypePanic(s, depth, "dimensions", ta,
+				fmt.Sprintf("fixnum between 0 and %d", slip.ArrayMaxDimension))
+		}
 		dims = []int{int(ta)}
 	case slip.List:
 		for _, v := range ta {
